@@ -161,6 +161,15 @@ GridClauses(r, d) ==
     FaceFaceCounts    |-> Has(x, "face_faces") => FaceFaceCounts(m, x.face_faces),
     FaceFacePadding   |-> Has(x, "face_faces") => FaceFacePadding(m, x.face_faces),
     HoleEdges         |-> Has(x, "holes") /\ he => IsHoleEdgeList(m, E, x.holes),
+    \* edge_face_distances is zero exactly on the edges that have a single face IN THE RESULT
+    EdgeFaceDistBoundary |-> Has(x, "efd_zero") /\ he =>
+                               /\ Len(x.efd_zero) = Len(E)
+                               /\ \A k \in 1..Len(E) : k <= Len(x.efd_zero) /\ RowOK2(E[k]) =>
+                                     LET single == Cardinality(FacesOfSide(m, RowAsSide(E[k]))) = 1 IN
+                                     /\ single => x.efd_zero[k]
+                                     \* on fine meshes the arccos form may round a tiny distance to 0.0: accuracy
+                                     \* of the distance itself is C16's subject, not judged here
+                                     /\ (~single /\ ~Has(r, "fine")) => ~x.efd_zero[k],
     AccessRaises      |-> x.raised = << >>,
     ScheduleIndependent |-> Has(r, "runs") => \A k \in 1..Len(r.runs) : r.runs[k] = x.src ]
 
@@ -186,6 +195,7 @@ ClausesOfVar(v) ==
     [] v = "node_face" -> { "NodeFaceMembers", "NodeFacePadding" }
     [] v = "face_face" -> { "FaceFaceCounts", "FaceFacePadding" }
     [] v = "holes" -> { "HoleEdges" }
+    [] v = "edge_face_dist" -> { "EdgeFaceDistBoundary", "eq_edge_face_dist" }
     [] OTHER -> { "eq_" \o v }
 Outcome(r, failed, v) == IF \E k \in 1..Len(r.res.raised) : r.res.raised[k] = v THEN "raises"
                          ELSE IF ClausesOfVar(v) \cap failed # {} THEN "wrong" ELSE "ok"
@@ -204,6 +214,11 @@ HolesExplains(r, failed, c) ==
   /\ c = "HoleEdges" /\ r.err = "" /\ r.op = "grid"
   /\ Has(r, "pre") /\ (\E k \in 1..Len(r.pre) : r.pre[k] = "holes")
   /\ Has(r, "srcholes") /\ Has(r.res, "holes") /\ r.res.holes = r.srcholes
+\* a per-edge value whose meaning depends on the faces present was copied from the source (SliceMech!Neighbourhood)
+NeighbourExplains(r, c) ==
+  /\ c \in { "EdgeFaceDistBoundary", "eq_edge_face_dist" } /\ r.err = "" /\ r.op = "grid"
+  /\ Has(r, "pre") /\ (\E k \in 1..Len(r.pre) : r.pre[k] = "edge_face_dist")
+  /\ Has(r.res, "efd_carried") /\ r.res.efd_carried /\ ShapeOf(r) = "proper"
 Am180Explains(r, d, c) ==
   /\ r.sel.t = "box" /\ Has(r.sel, "span") /\ r.sel.span /\ r.sel.am180 # << >>
   /\ Am180Faces(r, d) # ExpectedFaces(r, d)
@@ -212,6 +227,7 @@ Am180Explains(r, d, c) ==
 TagOf(r, d, failed, c) ==
   IF r.sel.t # "lat" /\ Am180Explains(r, d, c) THEN "am180_excluded"
   ELSE IF HolesExplains(r, failed, c) THEN "stale_hole_edges"
+  ELSE IF NeighbourExplains(r, c) THEN "neighbour_value_carried"
   ELSE IF StaleExplains(r, failed, c) THEN "stale_edge_side_tables"
   ELSE "none"
 
